@@ -5,6 +5,9 @@ import ZygoVerif.Model.Pratt
 import ZygoVerif.Model.LegacyPratt
 import ZygoVerif.Model.PrattGrammar
 import ZygoVerif.Spec.Stratified
+import ZygoVerif.Spec.Spacing
+import ZygoVerif.Model.InfixFront
+import ZygoVerif.Proofs.InfixFrontEnd
 namespace ZygoVerif.Pratt
 open ZygoVerif.Stratified
 
@@ -159,5 +162,135 @@ statements under the Pratt model and under the stratified specification. Kernel-
 theorem pratt_eq_stratified_partial :
     ((listsOfLen alphabet 1 ++ listsOfLen alphabet 2 ++ listsOfLen alphabetCore 3).all agree) = true := by
   decide +kernel
+
+/-! ### lex_spacing: a legal spacing of a token sequence lexes to that token sequence
+
+`Spec/Spacing.lean` says, on characters alone, which tokens may be written without a blank
+between them (rules W, D, S, B). The theorems below are about `Model/Lexer.lean`, the model of
+lexer.go that the `lex` channel (C13/C12) and the `expand ltree` ops tie to the code. -/
+
+section LexSpacing
+open ZygoVerif.Lexer ZygoVerif.Spacing ZygoVerif.InfixRead
+
+/-- The token queue after feeding `text` to a fresh lexer, when nothing is left pending. -/
+def lexText (text : List Char) : Option (List Lexer.Token) :=
+  match feed (.ok LexCore.init) text with
+  | .ok s => if s.buffer.isEmpty && s.state == .normal then some s.tokens else none
+  | .err _ _ => none
+
+/-- **lex_spacing** (general form): for EVERY token sequence and EVERY legal spacing of it, from
+every lexer state in LexerNormal with an empty buffer whose last rune was `l0`, the text followed
+by a blank is read as exactly the tokens of the sequence — one lexer token of the expected type
+(`expTok`) per written token — appended to the queue, with nothing left pending. -/
+theorem lex_spacing (items : List Spacing.Item) (l0 c : Char) (hc : Spacing.isBlank c = true)
+    (h : Spacing.legal l0 items = true) (T : List Lexer.Token) :
+    Lex ⟨.normal, [], T, l0⟩ (Spacing.renderItems items ++ [c]) ⟨.normal, [], T ++ items.map (fun it => expTok it.2), c⟩ :=
+  Lexer.lex_spacing items l0 c hc h T
+
+/-- … in particular from the fresh lexer (the last-rune ring starts with NULs). -/
+theorem lex_spacing_fresh (items : List Spacing.Item) (h : Spacing.legal '\x00' items = true) :
+    lexText (Spacing.renderItems items ++ ['\n']) = some (items.map (fun it => expTok it.2)) := by
+  obtain ⟨s', hf, hs'⟩ := Lexer.lex_spacing items '\x00' '\n' (by decide) h [] LexCore.init
+    ⟨rfl, rfl, rfl, ringOK_init, lastRune_init⟩
+  simp [lexText, hf, hs'.buffer, hs'.state, hs'.tokens]
+
+private def nm (s : String) : Tok := .name false [s.toList]
+private def nat (s : String) : Tok := .num false s.toList none none
+private def neg (s : String) : Tok := .num true s.toList none none
+private def op (s : String) : Tok := .op s.toList
+
+/-- non-vacuity: `a+b*-1 <=c.d[ 0 ]`, `x:=-2.5e-3`, `a - 1`, `a-1` are legal spacings -/
+example : Spacing.legal '\x00' [([], nm "a"), ([], op "+"), ([], nm "b"), ([], op "*"), ([], neg "1"), ([' '], op "<="),
+    ([], .name false ["c".toList, "d".toList]), ([], .punct '['), ([' '], nat "0"), (['\n'], .punct ']')] = true := by decide +kernel
+example : Spacing.legal '{' [([], nm "x"), ([], op ":="), ([], .num true "2".toList (some "5".toList) (some ('-', "3".toList)))] = true := by
+  decide +kernel
+example : Spacing.legal '{' [([], nm "a"), ([' '], op "-"), ([' '], nat "1")] = true := by decide +kernel
+example : Spacing.legal '{' [([], nm "a"), ([], op "-"), ([], nat "1")] = true := by decide +kernel
+
+/-- **The sign look-back (known finding of C06) is exactly the excluded adjacency B**: `a -1`
+(blank before the minus, none after it, a digit next) is not a legal spacing of the three tokens
+`a`, `-`, `1` — and it must not be: the lexer model reads the text as the TWO tokens `a`, `-1`. -/
+theorem lex_spacing_counterexample_sign_lookback :
+    Spacing.legal '{' [([], nm "a"), ([' '], op "-"), ([], nat "1")] = false ∧
+    lexText "a -1\n".toList = some [⟨.symbol, ['a']⟩, ⟨.decimal, ['-', '1']⟩] ∧
+    lexText "a - 1\n".toList = some [⟨.symbol, ['a']⟩, ⟨.symbol, ['-']⟩, ⟨.decimal, ['1']⟩] ∧
+    lexText "a-1\n".toList = some [⟨.symbol, ['a']⟩, ⟨.symbol, ['-']⟩, ⟨.decimal, ['1']⟩] := by
+  decide +kernel
+
+/-- Each of the other three rules is needed as well: written tight, `a` `b` is one name (W), `+` `+`
+is the operator `++` and `<` `-1` starts with the operator `<-` (D), `a` `-1` is a subtraction (S). -/
+theorem lex_spacing_counterexample_other_rules :
+    (Spacing.legal '{' [([], nm "a"), ([], nm "b")] = false ∧ lexText "ab\n".toList = some [⟨.symbol, ['a', 'b']⟩]) ∧
+    (Spacing.legal '{' [([], nm "a"), ([], op "+"), ([], op "+"), ([], nm "b")] = false ∧
+      lexText "a++b\n".toList = some [⟨.symbol, ['a']⟩, ⟨.symbol, ['+', '+']⟩, ⟨.symbol, ['b']⟩]) ∧
+    (Spacing.legal '{' [([], nm "a"), ([], op "<"), ([], neg "1")] = false ∧
+      lexText "a<-1\n".toList = some [⟨.symbol, ['a']⟩, ⟨.symbol, ['<', '-']⟩, ⟨.decimal, ['1']⟩]) ∧
+    (Spacing.legal '{' [([], nm "a"), ([], neg "1")] = false ∧
+      lexText "a-1\n".toList = some [⟨.symbol, ['a']⟩, ⟨.symbol, ['-']⟩, ⟨.decimal, ['1']⟩]) := by
+  decide +kernel
+
+/-- Written tight after an operator the signed numeral is fine: `a*-1`, `a<=-1`, `x=-2`. -/
+example : lexText "a*-1 a<=-1 x=-2\n".toList =
+    some [⟨.symbol, ['a']⟩, ⟨.symbol, ['*']⟩, ⟨.decimal, ['-', '1']⟩, ⟨.symbol, ['a']⟩, ⟨.symbol, ['<', '=']⟩, ⟨.decimal, ['-', '1']⟩,
+          ⟨.symbol, ['x']⟩, ⟨.symbol, ['=']⟩, ⟨.decimal, ['-', '2']⟩] := by decide +kernel
+
+/-! ### end to end: the text of a block, in any legal spacing, means the stratified tree -/
+
+/-- **The front end does not depend on the spacing.** The text of a non-empty block `{ xs }` written
+in any legal spacing — `items` spaces the tokens `{`, those of the source tree `xs`
+(names, numerals, operators, `[ … ]`, `( … )`, nested `{ … }`, to any depth), `}` — is lexed and
+parsed (models of lexer.go and parser.go) to the token array `blockSx xs`, which is a function of
+the source tree alone. -/
+theorem infix_text_tokens (x : Src) (xs : List Src) (hok : okL (x :: xs) = true) (items : List Spacing.Item)
+    (hitems : items.map (·.2) = Src.flat (.block (x :: xs))) (hlegal : Spacing.legal '\x00' items = true) :
+    InfixFront.blockOf (Spacing.renderItems items) = some (blockSx (x :: xs)) :=
+  blockOf_legal x xs hok items hitems hlegal
+
+/-- … so the statements the expander produces for the text are those it produces for the token list. -/
+theorem infix_text_expands (T : Table) (x : Src) (xs : List Src) (hok : okL (x :: xs) = true) (items : List Spacing.Item)
+    (hitems : items.map (·.2) = Src.flat (.block (x :: xs))) (hlegal : Spacing.legal '\x00' items = true) :
+    (InfixFront.blockOf (Spacing.renderItems items)).bind (expandBlock T) = expandBlock T (blockSx (x :: xs)) := by
+  rw [infix_text_tokens x xs hok items hitems hlegal]; rfl
+
+/-- THE FULL END-TO-END STATEMENT: the text of every block in every legal spacing expands to the
+statements the stratified grammar of the documented levels gives for its token list (when the
+specification speaks about the list: `inScope`). -/
+def TextMeansStratified : Prop :=
+  ∀ (x : Src) (xs : List Src) (items : List Spacing.Item), okL (x :: xs) = true →
+    items.map (·.2) = Src.flat (.block (x :: xs)) → Spacing.legal '\x00' items = true →
+    inScope documented (blockSx (x :: xs)) = true →
+    sameRes ((InfixFront.blockOf (Spacing.renderItems items)).bind (expandBlock Table.generated))
+            (parseBlock documented (blockSx (x :: xs))) = true
+
+/-- PARTIAL: proved for every block and every legal spacing whose token list the Pratt model and
+the stratified specification agree on (`agree`: kernel-checked for the short lists of
+`pratt_eq_stratified_partial`; what is missing for all lists is `PrattEqStratified`, the induction
+on the length of the token list). The lexer and parser stages are proved for all texts. -/
+theorem text_means_stratified_partial (x : Src) (xs : List Src) (items : List Spacing.Item) (hok : okL (x :: xs) = true)
+    (hitems : items.map (·.2) = Src.flat (.block (x :: xs))) (hlegal : Spacing.legal '\x00' items = true)
+    (hin : inScope documented (blockSx (x :: xs)) = true) (hagree : agree (blockSx (x :: xs)) = true) :
+    sameRes ((InfixFront.blockOf (Spacing.renderItems items)).bind (expandBlock Table.generated))
+            (parseBlock documented (blockSx (x :: xs))) = true := by
+  rw [infix_text_expands Table.generated x xs hok items hitems hlegal]
+  simpa [agree, hin] using hagree
+
+private def exSrc : List Src := [.tok (nm "a"), .tok (op "+"), .tok (nm "b"), .tok (op "*"), .tok (neg "1")]
+private def exItems : List Spacing.Item :=
+  [([], .punct '{'), ([], nm "a"), ([], op "+"), ([], nm "b"), ([], op "*"), ([], neg "1"), ([], .punct '}')]
+
+private theorem exSx : blockSx exSrc = [.sym "a", .sym "+", .sym "b", .sym "*", .lit "-1"] := by
+  have e : PrintData.itoa (-1) = ['-', '1'] := by decide
+  have h := atomOfTok_itoa (-1) (by decide) (by decide)
+  rw [e] at h
+  simp [blockSx, exSrc, elems, toSexp, tokSexp, expTok, nm, op, neg, Tok.text, Tok.dotted, Sexp.listSx, Sexp.toSx, h]
+  decide
+
+/-- non-vacuity: the text `{a+b*-1}` satisfies every hypothesis of `text_means_stratified_partial` -/
+example : okL exSrc = true ∧ exItems.map (·.2) = Src.flat (.block exSrc) ∧ Spacing.legal '\x00' exItems = true ∧
+    String.ofList (Spacing.renderItems exItems) = "{a+b*-1}" ∧
+    inScope documented (blockSx exSrc) = true ∧ agree (blockSx exSrc) = true := by
+  rw [exSx]; decide +kernel
+
+end LexSpacing
 
 end ZygoVerif.Pratt
